@@ -6672,3 +6672,160 @@ func ruleMemoKeysAgree(c *core.Ctx) {
 		}
 	}
 }
+
+// Q7 (C13): a model directory is read with its sub-directories. ParseYamlInDir collects the files of a package with a
+// traversal that descends (filepath.Walk / WalkDir / fs.WalkDir, or a function that lists a directory and calls itself):
+// a flat listing silently drops `model/types/records.yml`, and the same definitions split over sub-directories are
+// "not recognized" or — for a protocol that exists only there — missing from every output without a diagnostic.
+func ruleModelDirectoryReadRecursively(c *core.Ctx) {
+	const rule = "Q7"
+	c.Rule(rule, "dsl.ParseYamlInDir obtains the file list from a recursive directory traversal", 1)
+	p := c.Pkg("pkg/dsl")
+	_, d, _ := c.Func("pkg/dsl", "ParseYamlInDir")
+	if p == nil || d == nil {
+		c.Undecided(rule, "anchor/pkg/dsl.ParseYamlInDir", 0, "anchor not found")
+		return
+	}
+	walkers := map[string]bool{"path/filepath.Walk": true, "path/filepath.WalkDir": true, "io/fs.WalkDir": true}
+	listers := map[string]bool{"os.ReadDir": true, "io/ioutil.ReadDir": true, "(*os.File).Readdir": true, "(*os.File).ReadDir": true, "(*os.File).Readdirnames": true, "path/filepath.Glob": true, "io/fs.ReadDir": true}
+	visited := map[*ast.FuncDecl]bool{}
+	var recursiveWalk, flat token.Pos
+	var scan func(fd *ast.FuncDecl, depth int)
+	scan = func(fd *ast.FuncDecl, depth int) {
+		if fd == nil || fd.Body == nil || visited[fd] || depth > 3 {
+			return
+		}
+		visited[fd] = true
+		info := c.DeclPkg(fd).TypesInfo
+		self := info.Defs[fd.Name]
+		lists, callsSelf := token.NoPos, false
+		ast.Inspect(fd.Body, func(n ast.Node) bool {
+			ce, ok := n.(*ast.CallExpr)
+			if !ok {
+				return true
+			}
+			f := core.Callee(info, ce)
+			if f == nil {
+				return true
+			}
+			name := core.FullName(f)
+			switch {
+			case walkers[name]:
+				recursiveWalk = ce.Pos()
+			case listers[name]:
+				lists = ce.Pos()
+			case f == self:
+				callsSelf = true
+			case core.InModule(f):
+				scan(c.Decl(f), depth+1)
+			}
+			return true
+		})
+		if lists != token.NoPos {
+			if callsSelf {
+				recursiveWalk = lists
+			} else {
+				flat = lists
+			}
+		}
+	}
+	scan(d, 0)
+	switch {
+	case recursiveWalk != token.NoPos:
+		c.OK(rule, "ParseYamlInDir/file list", recursiveWalk, "recursive traversal")
+	case flat != token.NoPos:
+		c.Bad(rule, "ParseYamlInDir/file list", flat, "the directory is listed without descending into sub-directories: model files below the top level are skipped without any diagnostic")
+	default:
+		c.Undecided(rule, "ParseYamlInDir/file list", d.Pos(), "no directory traversal found in ParseYamlInDir or the functions it calls")
+	}
+}
+
+// B6 (C05): a temporary that is read into as a batch has the caller's capacity. ReadBlocksIntoVector reads at most
+// `destination.capacity()` items (the capacity of `values` is the batch size the caller asked for). Where the generated
+// batch reader of a changed step reads the old type into a temporary vector first, the temporary is declared empty
+// (`T tmp = {};`): without `tmp.reserve(values.capacity())` in front of the read the batch size is zero — the reader
+// returns "more data" with no items, forever.
+func ruleTemporaryBatchHasCapacity(c *core.Ctx) {
+	const rule = "B6"
+	c.Rule(rule, "cpp/binary.writeProtocolStep: every plural read (isPlural, !write) that goes into another vector than the method's own `values` is preceded, under the same conditions, by an emitted `<that vector>.reserve(<values>.capacity());`", 1)
+	p := c.Pkg("internal/cpp/binary")
+	_, d, _ := c.Func("internal/cpp/binary", "writeProtocolStep")
+	if p == nil || d == nil {
+		c.Undecided(rule, "anchor/cpp/binary.writeProtocolStep", 0, "anchor not found")
+		return
+	}
+	x := &gee.Extractor{Info: p.TypesInfo, Fset: c.Fset}
+	x.Decl = func(f *types.Func) *ast.FuncDecl {
+		if f.Pkg() != p.Types {
+			return nil
+		}
+		return c.Decl(f)
+	}
+	rows := x.Extract(d.Name.Name, d)
+	// index of the destination parameter of the step reader/writer helper: the string parameter that receives the
+	// function's own target variable at some call
+	n := 0
+	for i, r := range rows {
+		if r.Kind != "call" {
+			continue
+		}
+		tIdx := -1
+		for _, o := range rows {
+			if o.Kind == "call" && o.Tmpl == r.Tmpl {
+				for k, a := range o.Args {
+					if a == "target" {
+						tIdx = k
+					}
+				}
+			}
+		}
+		if tIdx < 0 || tIdx >= len(r.Args) || r.Args[tIdx] == "target" {
+			continue
+		}
+		// is this a read in the plural form?
+		sat, _ := guardSat(r.Guards, map[string]string{"isPlural": "true", "write": "false"})
+		if !sat {
+			continue
+		}
+		// the helper must be the one that reads/writes the step (it receives isPlural and write)
+		hasFlags := 0
+		for _, a := range r.Args {
+			if a == "isPlural" || a == "write" {
+				hasFlags++
+			}
+		}
+		if hasFlags < 2 {
+			continue
+		}
+		n++
+		tmp := r.Args[tIdx]
+		key := fmt.Sprintf("plural read into %s#%d", tmp, n)
+		found := false
+		for _, e := range rows[:i] {
+			if e.Kind != "emit" || !strings.Contains(e.Tmpl, ".reserve(") || !strings.Contains(e.Tmpl, ".capacity()") || len(e.Args) < 2 || e.Args[0] != tmp {
+				continue
+			}
+			// emitted whenever the read is: its guards are among the read's guards
+			sub := true
+			for _, g := range e.Guards {
+				in := false
+				for _, h := range r.Guards {
+					if g == h {
+						in = true
+					}
+				}
+				if !in {
+					sub = false
+				}
+			}
+			if sub {
+				found = true
+			}
+		}
+		c.Check(found, rule, key, r.Pos, "`"+tmp+".reserve(values.capacity())` is emitted in front of the read",
+			"the batch read of the old type goes into the temporary `"+tmp+"`, which is declared empty, and no `reserve(values.capacity())` is emitted for it: ReadBlocksIntoVector takes the capacity as the batch size and reads nothing")
+	}
+	if n == 0 {
+		c.Undecided(rule, "anchor/plural read into a temporary", d.Pos(), "no plural read into a temporary found in writeProtocolStep")
+	}
+}
